@@ -38,15 +38,15 @@ func (s Sort) SMT() string {
 
 // Term is an SMT term with light constant folding.
 type Term struct {
-	S     string
-	Sort  Sort
-	Const bool
-	U     uint64 // BV value (masked to width) or bool 0/1
-	Str   string // string constant
-	I     string // optional Int-sorted text equal to the signed value of this BV
-	Head  *Term  // for str.++ terms: constant first part
-	Tail  *Term  // for str.++ terms: the rest after Head
-	BS    *BStr  // byte-vector representation (bvstr mode); S is unused then
+	S      string
+	Sort   Sort
+	Const  bool
+	U      uint64 // BV value (masked to width) or bool 0/1
+	Str    string // string constant
+	I      string // optional Int-sorted text equal to the signed value of this BV
+	Head   *Term  // for str.++ terms: constant first part
+	Tail   *Term  // for str.++ terms: the rest after Head
+	BS     *BStr  // byte-vector representation (bvstr mode); S is unused then
 	BSName string
 }
 
@@ -191,7 +191,7 @@ func Ite(c, a, b *Term) *Term {
 	if a.Sort.K == KBool {
 		return Or(And(c, a), And(Not(c), b))
 	}
-	if a.Sort.K == KStr && anyBS(a, b) {
+	if a.Sort.K == KStr && (BVStrMode || anyBS(a, b)) {
 		x, y := bsOf(a), bsOf(b)
 		out := &BStr{ctx: pickCtx(x, y), Len: Ite(c, x.Len, y.Len)}
 		n := len(x.B)
